@@ -443,6 +443,25 @@ def narrowLaw (sd : SD) (o : CObs) : Option String :=
   | .ok w => if (intsOfV w).all (fun i => (intsOfSD sd).contains i) then none else some "narrowing"
   | _ => none
 
+/-- "a map key stays the key it was": when a Rust map whose keys are all integers or strings is
+turned into an object, the object's keys are exactly the decimal texts of the integer keys / the
+string keys themselves (a key turned into another number's text — e.g. a `u64` beyond `i64::MAX`
+printed as a negative number — is a different key, not a rejected one) -/
+def keyLaw (sd : SD) (o : CObs) : Option String :=
+  match sd, o with
+  | .map kvs, .ok (.obj okvs) =>
+    let want : Option (List Str) := kvs.mapM fun (k, _) =>
+      match k with
+      | .int _ n => some (toString n).toList
+      | .str s => some s
+      | _ => none
+    match want with
+    | some ks =>
+      if okvs.all (fun (k, _) => ks.contains k) && ks.all (fun k => okvs.any (fun (k', _) => k' == k)) then none
+      else some "map-keys-preserved"
+    | none => none
+  | _, _ => none
+
 /-- `ser <SD> => obs` : `to_value(&x)`;  `serobj` : `to_object(&x)`;  `sersc` : `to_scalar(&x)` -/
 def opSer (kind : String) (which : Nat) : P String := do
   let sd ← pSD
@@ -453,7 +472,7 @@ def opSer (kind : String) (which : Nat) : P String := do
     | 0 => serialize sd
     | 1 => (serializeObject sd).bind fun o => .ok (.obj o)
     | _ => (serializeScalar sd).bind fun s => .ok (.sc s)
-  let spec := (cobsBad o).orElse fun _ => narrowLaw sd o
+  let spec := ((cobsBad o).orElse fun _ => narrowLaw sd o).orElse fun _ => (if which == 2 then none else keyLaw sd o)
   pure (verdict kind spec (cobsMatches r o) (showResVC r) (showCObs o))
 
 /-- `serjson <SD> <orc> => obs` : `serde_json::to_string(&x)` then `from_str::<Value>` -/
